@@ -3,7 +3,7 @@
    by hand from the property text and never look at the tables; the theorems
    say that the interpreters of the generated tables meet them. *)
 From Coq Require Import List NArith ZArith Bool String Lia.
-From P9 Require Import Base.Res Model.WireTypes Gen.GenWire Gen.GenDispatch Model.Pipeline.
+From P9 Require Import Base.Res Base.Sexp Model.WireTypes Gen.GenWire Gen.GenDispatch Model.Pipeline.
 Import ListNotations.
 Open Scope Z_scope.
 
@@ -103,6 +103,26 @@ Proof.
     destruct (9223372036854775808 <=? z) eqn:E; [apply Z.leb_le in E; lia | reflexivity].
 Qed.
 
+Lemma wrap_i64_small : forall z, 0 <= z < 2 ^ 63 -> wrap (DWrap 64 true) z = z.
+Proof.
+  intros z H. unfold wrap. cbn [andb Z.of_N].
+  change (2 ^ Z.pos 64) with 18446744073709551616.
+  change (18446744073709551616 / 2) with 9223372036854775808.
+  change (2 ^ 63) with 9223372036854775808 in H.
+  rewrite Z.mod_small by lia.
+  destruct (9223372036854775808 <=? z) eqn:E; [apply Z.leb_le in E; lia | reflexivity].
+Qed.
+
+Lemma slice_out_all : forall out plen, zlen out <= plen -> slice_out out (zlen out) plen = Ok out.
+Proof.
+  intros out plen H. unfold slice_out.
+  assert (H0 : 0 <= zlen out) by (unfold zlen; lia).
+  rewrite (proj2 (Z.leb_le 0 (zlen out))) by exact H0.
+  rewrite (proj2 (Z.leb_le (zlen out) plen)) by exact H.
+  cbn [andb]. unfold zlen. rewrite Nat2Z.id. rewrite firstn_all. rewrite Nat.sub_diag.
+  cbn [repeat]. rewrite app_nil_r. reflexivity.
+Qed.
+
 Lemma rread_overhead_11 : rread_overhead = 11.
 Proof. vm_compute. reflexivity. Qed.
 
@@ -162,6 +182,8 @@ Local Arguments wrap : simpl never.
 Local Arguments zlen : simpl never.
 Local Arguments tread_clamp : simpl never.
 Local Arguments msg_size : simpl never.
+Local Arguments slice_out : simpl never.
+Local Arguments arg_len : simpl never.
 Local Arguments Z.ltb : simpl never.
 Local Arguments Z.leb : simpl never.
 Local Arguments Z.eqb : simpl never.
@@ -258,7 +280,6 @@ Section Request.
     [ apply Z.leb_le in E; specialize (Htr _ eq_refl);
       eexists; refine (conj _ (conj _ _));
       [ | | cbn; rewrite !twrite_size; change (has_stat_prefix 118) with false; cbn iota;
-            match goal with |- ?G => idtac "WG" G end;
             rewrite (proj2 (Z.leb_le _ _) E); rewrite Htr; cbn; rewrite !twrite_size;
             change (has_stat_prefix 118) with false; cbn iota;
             rewrite (proj2 (Z.leb_le _ _) E); cbn; same_case ];
@@ -319,8 +340,7 @@ Section Request.
       clear Hfit.
       match goal with H : has_kind GKBytes _ |- _ => inv H end;
         start0 Hguard Htr; cbn [cm_name clip_args String.eqb Ascii.eqb Bool.eqb];
-        [ | remember (repeat 0%N (Z.to_nat n)) as d eqn:Ed ];
-        write_case msize Htr d.
+        [ write_case msize Htr d | write_case msize Htr (repeat 0%N (Z.to_nat n)) ].
     - (* Open *) plain Hguard Hfit Htr.
     - (* Create *) plain Hguard Hfit Htr.
     - (* Stat *) plain Hguard Hfit Htr.
@@ -333,3 +353,185 @@ Section Request.
       [ cbn; tauto | reflexivity ].
   Qed.
 End Request.
+
+(* the protocol's MAXWELEM limit: more than 16 names are refused by the client, nothing is sent *)
+Lemma walk_limit_not_sent : forall transfer msize smsize fid newfid names,
+  16 < zlen names ->
+  exists m, find_client "Walk" = Some m /\
+    request_path transfer msize smsize m [fid; newfid; GStrs names]
+    = Ok (inl (NotSent (zero_outcome m (ERerror (err_ename "ErrWalkLimit"))))).
+Proof.
+  intros transfer msize smsize fid newfid names H.
+  eexists. split; [reflexivity |].
+  unfold request_path, client_req. cbn.
+  rewrite (proj2 (Z.ltb_lt 16 (zlen names)) H). reflexivity.
+Qed.
+
+Lemma walk_limit_text : err_ename "ErrWalkLimit" = str "too many wnames in walk".
+Proof. vm_compute. reflexivity. Qed.
+
+(* -------------------------------------------------- the reply direction *)
+
+(* what the caller must get, given what the served session returned.
+   Errors cross the wire as text (newErrorFcall): the caller gets a
+   MessageRerror with that text and zero values.  A successful Read of zero
+   bytes is 9P's end of file.  A Write's count below len(p) is a short write.
+   Timestamps of a Stat come back as whole seconds in 32 bits. *)
+Definition expected (m : cmethod) (args : list gval) (o : outcome) : outcome :=
+  match o_err o with
+  | ENil =>
+      if String.eqb (cm_name m) "Read" then
+        {| o_vals := [GInt (zlen (o_out o))]; o_out := o_out o;
+           o_err := if zlen (o_out o) =? 0 then EEof else ENil |}
+      else if String.eqb (cm_name m) "Write" then
+        {| o_vals := o_vals o; o_out := [];
+           o_err := match o_vals o with
+                    | [GInt n] => if n <? arg_len args 1 then EShortWrite else ENil
+                    | _ => ENil
+                    end |}
+      else if String.eqb (cm_name m) "Stat" then
+        {| o_vals := match o_vals o with [GDir fs] => [GDir (map clip_dval fs)] | v => v end;
+           o_out := []; o_err := ENil |}
+      else {| o_vals := o_vals o; o_out := []; o_err := ENil |}
+  | e => zero_outcome m (ERerror (wire_ename e))
+  end.
+
+(* results a Session may return for the call it received *)
+Definition result_wf (m : cmethod) (args sargs : list gval) (o : outcome) : Prop :=
+  o_err o = ENil ->
+  Forall2 has_kind (cm_results m) (o_vals o) /\
+  (cm_name m = "Read"%string ->
+     exists plen, nth_error sargs 1 = Some (GBuf plen) /\ o_vals o = [GInt (zlen (o_out o))] /\
+                  zlen (o_out o) <= plen <= arg_len args 1) /\
+  (cm_name m = "Write"%string -> exists n, o_vals o = [GInt n] /\ 0 <= n < 2 ^ 32).
+
+Section Reply.
+  Variable transfer : message -> res message.
+
+  Definition reply_path (msize : Z) (m : cmethod) (c : scase) (args sargs : list gval) (o : outcome) : res outcome :=
+    reply <- server_reply c sargs o ;; deliver_reply transfer msize m args reply.
+
+  Ltac reply_go Hr :=
+    let Hsz := fresh "Hsz" in let Htr := fresh "Htr" in
+    unfold server_reply in *; cbn in Hr; destruct (Hr _ eq_refl) as [Hsz Htr]; apply Z.ltb_ge in Hsz;
+    unfold deliver_reply; cbn; rewrite Hsz; rewrite Htr; cbn; rewrite Hsz; cbn.
+
+  Ltac reply_err Hr := reply_go Hr; reflexivity.
+
+  Ltac reply_open Hwf :=
+    let Hv := fresh "Hv" in let Hspec := fresh "Hspec" in
+    destruct (Hwf eq_refl) as [Hv Hspec]; cbn in Hv; split_args Hv; kinds.
+
+  Ltac reply_plain Hwf Hr :=
+    reply_open Hwf; reply_go Hr; rewrite ?Z2N.id by lia; reflexivity.
+
+  Lemma reply_identity : forall msize m c args sargs o,
+    In m gen_client -> find_server (cm_req m) = Some c ->
+    result_wf m args sargs o ->
+    (forall r, server_reply c sargs o = Ok r -> msg_size r <= msize /\ transfer r = Ok r) ->
+    reply_path msize m c args sargs o = Ok (expected m args o).
+  Proof.
+    intros msize m c args sargs o Hin Hc Hwf Hr.
+    cbn in Hin.
+    repeat (destruct Hin as [<- | Hin]); [.. | contradiction]; cbn in Hc; inv Hc;
+      unfold reply_path, expected, result_wf in *; destruct o as [vals out err];
+      cbn [o_err o_vals o_out cm_name String.eqb Ascii.eqb Bool.eqb] in *;
+      (destruct err; [ | reply_err Hr .. ]).
+    - (* Auth *) reply_plain Hwf Hr.
+    - (* Attach *) reply_plain Hwf Hr.
+    - (* Clunk *) reply_plain Hwf Hr.
+    - (* Remove *) reply_plain Hwf Hr.
+    - (* Walk *) reply_plain Hwf Hr.
+    - (* Read *)
+      reply_open Hwf. destruct Hspec as [Hread _].
+      destruct (Hread eq_refl) as [plen [Hp [Hvals Hlen]]]. inv Hvals.
+      pose proof (zlen_nonneg _ out) as Hout0.
+      unfold server_reply, eval_srep in *; cbn in Hr |- *.
+      cbn in Hp. rewrite Hp in Hr |- *. cbn in Hr |- *.
+      rewrite slice_out_all in Hr |- * by lia. cbn in Hr |- *.
+      destruct (Hr _ eq_refl) as [Hsz Htr]; apply Z.ltb_ge in Hsz.
+      unfold deliver_reply; cbn; rewrite Hsz; rewrite Htr; cbn; rewrite Hsz; cbn.
+      rewrite Z.min_r by lia. rewrite firstn_all_z by lia. reflexivity.
+    - (* Write *)
+      reply_open Hwf. destruct Hspec as [_ Hwrite].
+      destruct (Hwrite eq_refl) as [n [Hvals Hn]]. inv Hvals.
+      reply_go Hr. pows.
+      rewrite (wrap_unsigned_small 32) by (cbn; pows; lia).
+      rewrite Z2N.id by lia. rewrite wrap_i64_small by (pows; lia). reflexivity.
+    - (* Open *) reply_plain Hwf Hr.
+    - (* Create *) reply_plain Hwf Hr.
+    - (* Stat *)
+      reply_open Hwf. reply_go Hr. rewrite dir_roundtrip by assumption. reflexivity.
+    - (* WStat *) reply_plain Hwf Hr.
+  Qed.
+End Reply.
+
+(* an Rerror reply reaches the caller as an error with its Ename, whatever the method *)
+Lemma rerror_passes : forall m args ename,
+  client_result m args (rerror_type, [VF (FStr ename)]) = Ok (zero_outcome m (ERerror ename)).
+Proof. intros. unfold client_result. change (N.eqb rerror_type rerror_type) with true. reflexivity. Qed.
+
+(* a reply of any other type than the one the method asserts is refused with ErrUnexpectedMsg *)
+Lemma wrong_type_refused : forall m args t vs,
+  In m gen_client -> t <> rerror_type -> t <> type_of (cm_rep m) ->
+  client_result m args (t, vs) = Ok (zero_outcome m (ERerror (err_ename "ErrUnexpectedMsg"))).
+Proof.
+  intros m args t vs Hin H1 H2. unfold client_result.
+  rewrite (proj2 (N.eqb_neq t rerror_type) H1).
+  cbn in Hin.
+  repeat (destruct Hin as [<- | Hin]); [.. | contradiction];
+    cbn in H2 |- *; rewrite (proj2 (N.eqb_neq _ _) H2); reflexivity.
+Qed.
+
+Lemma unexpected_text : err_ename "ErrUnexpectedMsg" = str "unexpected message".
+Proof. vm_compute. reflexivity. Qed.
+
+(* the client's method table implements the Session interface, signature for signature *)
+Lemma client_signatures_match :
+  forallb (fun m => match find (fun e => String.eqb (fst (fst (fst e))) (cm_name m)) gen_session with
+                    | Some (_, ps, v, rs) =>
+                        (Nat.eqb (List.length ps) (List.length (cm_params m))) && Bool.eqb v (cm_variadic m)
+                        && Nat.eqb (List.length rs) (List.length (cm_results m))
+                    | None => false
+                    end) gen_client = true
+  /\ List.length gen_client = List.length gen_session.
+Proof. split; vm_compute; reflexivity. Qed.
+
+(* ---------------------------------------- concurrent callers: own results *)
+
+(* Composition with the tag layers.  What the sibling models provide is taken
+   as hypotheses of this section (to be instantiated by the lead):
+     - C05 (client transport): a reply frame is handed to the call whose
+       request carried the frame's tag, and tags of outstanding calls differ;
+     - C06 (server loop): every reply frame the server sends carries the tag of
+       a request frame it received and the message its own handler invocation
+       produced for that request;
+     - C01/C03 (codec, framing): frames arrive as sent.
+   Conclusion: the reply delivered to a call is the handler's answer to THAT
+   call's request, so by request_identity/reply_identity each caller gets the
+   result the session returned for its own arguments. *)
+Section OwnResult.
+  Variable call : Type.                         (* identities of the concurrent calls *)
+  Variable tag_of : call -> N.                  (* the tag the client transport gave each call *)
+  Variable request_of : call -> message.        (* the request message each call sent *)
+  Variable handler : message -> message.        (* Handle: request message -> reply message (for this history) *)
+  Variable delivered : call -> message -> Prop. (* the transport handed this reply message to this call *)
+  Variable client_received : N -> message -> Prop.   (* frames (tag, message) read by the client *)
+  Variable server_sent : N -> message -> Prop.       (* frames written by the server *)
+  Variable server_received : N -> message -> Prop.   (* request frames read by the server *)
+
+  Hypothesis C05_own_reply : forall c r, delivered c r -> client_received (tag_of c) r.
+  Hypothesis C05_tags_distinct : forall c c', tag_of c = tag_of c' -> c = c'.
+  Hypothesis wire_replies : forall t r, client_received t r -> server_sent t r.
+  Hypothesis C06_reply_own : forall t r, server_sent t r -> exists q, server_received t q /\ r = handler q.
+  Hypothesis wire_requests : forall t q, server_received t q -> exists c, tag_of c = t /\ q = request_of c.
+
+  Lemma own_result : forall c r, delivered c r -> r = handler (request_of c).
+  Proof.
+    intros c r Hd.
+    apply C05_own_reply in Hd. apply wire_replies in Hd.
+    destruct (C06_reply_own _ _ Hd) as [q [Hq ->]].
+    destruct (wire_requests _ _ Hq) as [c' [Ht ->]].
+    apply C05_tags_distinct in Ht. subst c'. reflexivity.
+  Qed.
+End OwnResult.
